@@ -101,6 +101,12 @@ CHECKS['C11'] = dict(
     text='CLAUSE decided (numeric): for all 19 scales x {absent, 0..19, 40} precisions every path of Display::fmt ends in exactly one Formatter::pad_integral(coeff >= 0 of the unrounded value, "", buf) and buf is formatted from [int, frac, width] with width = min(P,18) (or the value\'s own digits), int*10^prec + frac = |x|*10^(prec-p) resp. |Rnd[thread](x/10^(p-prec))| (the signed value rounded once), 0 <= frac < 10^prec, and from [int] alone for prec = 0. NOT decided: the text core::fmt produces for the template and pad_integral\'s handling of width, fill, alignment, + and 0.',
     note=TB + 'core::fmt; summary R (C05).')
 
+CHECKS['C06'] = dict(
+    category='other', design_ref='DESIGN.md section 5 C06',
+    technique=ABSINT + ' with generalisation (widening with thresholds + candidate relations checked inductively) at loop heads; modular: the three scanning helpers are analysed alone and replaced by the summaries they establish; unsafe preconditions as obligations',
+    text='CLAUSE decided: str_to_dec, from_str and the TryFrom<&str|String> forwarders never panic and never read outside the string, for slices of every length 0..=isize::MAX: no bounds-check, arithmetic-overflow (usize/isize), cast or debug-assertion failure edge is feasible, and at each of the 14 unsafe call sites of the parser the precondition (get_unchecked(n..): n <= len; read_unaligned::<u64>: len >= 8) holds. NOT decided: the accepted grammar, the value returned and the completeness of overflow detection (the known value-level defect from_str("440282366920938463463374607431768211456") = Ok(10^38) is outside this clause).',
+    note=TB + 'slice/pointer models track lengths only.')
+
 NOT_APPLICABLE = {
     'C07': 'Display/parse round trip is a value-level property of run-time digit strings across two algorithms (core::fmt and a byte parser); no structural clause that is both necessary and checkable without executing or symbolically solving; see DESIGN.md section 7.',
     'C12': 'Bit-exact float rounding of Decimal -> f64/f32 over 2^127 x 19 inputs: no sound static abstract domain in reach relates the produced bit pattern to the nearest float; see DESIGN.md section 7.',
